@@ -781,3 +781,70 @@ func TestC12_Termination(t *testing.T) {
 	}
 	ev.Run(t, r, genC12Arb, c12ArbOracle)
 }
+
+// TestC12_LengthSweep: termination at every length indicator. After the mandatory part of a well-formed PDU SESSION
+// ESTABLISHMENT ACCEPT (inside its protected DL NAS TRANSPORT), one optional IE header is written and the message ends:
+// every IEI (quick: the IEIs of Table 8.3.2.1.1 and their neighbours; thorough: all 256) x every one-octet length and
+// every two-octet length indicator 0..65535, once cut off right behind the length and once followed by 40 octets.
+func TestC12_LengthSweep(t *testing.T) {
+	r := ev.New(t, "C12", "TestC12_LengthSweep")
+	defer r.Flush()
+	c12Rec = r
+	hdr := []byte{0x2E, 5, 1, 0xC2, 0x11, 0x00, 0x04, 1, 0, 1, 1, 0x06, 0x06, 0x03, 0xE8, 0x06, 0x03, 0xE8}
+	var ieis []int
+	if ev.Tier() == "thorough" {
+		for i := 0; i < 256; i++ {
+			ieis = append(ieis, i)
+		}
+	} else {
+		seen := map[int]bool{}
+		for _, s := range refid.AcceptTable {
+			for _, d := range []int{-1, 0, 1} {
+				if x := int(s.IEI) + d; x >= 0 && x < 256 && !seen[x] {
+					seen[x] = true
+					ieis = append(ieis, x)
+				}
+			}
+		}
+	}
+	tail := bytes.Repeat([]byte{0x29, 0x05, 0x01, 10, 45, 0, 1, 0x00}, 5)
+	for k, iei := range ieis {
+		if k%ev.NShards() != ev.Shard() {
+			continue
+		}
+		build := func(l int, two bool, withTail bool) HexBytes {
+			opt := []byte{byte(iei), byte(l)}
+			if two {
+				opt = []byte{byte(iei), byte(l >> 8), byte(l)}
+			}
+			if withTail {
+				opt = append(opt, tail...)
+			}
+			dl, _ := refid.DLNASTransport(1, append(append([]byte{}, hdr...), opt...), nil)
+			return refid.Protect(2, []byte{1, 2, 3, 4}, 0, dl)
+		}
+		// one watchdog per IEI and form: 2 x 65536 calls of microseconds each against a bound of 5 s per CALL is
+		// a bound of 5 s for the whole batch here (a hang of any one call trips it)
+		for _, form := range []struct {
+			two bool
+			n   int
+		}{{false, 256}, {true, 65536}} {
+			c := c12Arb{Kind: fmt.Sprintf("length-sweep iei=%#02x two-octet-length=%v", iei, form.two)}
+			stop := r.Watchdog(c, "DecodePDUSessionNASPDU", 6*c12Bound)
+			for l := 0; l < form.n; l++ {
+				for _, wt := range []bool{false, true} {
+					in := build(l, form.two, wt)
+					c.NAS = in
+					r.Trace(c)
+					_, _ = ev.Guard(func() error { stgutg.DecodePDUSessionNASPDU(in); return nil })
+				}
+			}
+			stop()
+			v := ev.Verdict{NT: true, Hash: ev.HashJSON([]interface{}{"sweep", iei, form.two}), Classes: []string{"length-sweep"}}
+			c.NAS = nil
+			if !r.Each(t, c, v) {
+				return
+			}
+		}
+	}
+}
